@@ -42,7 +42,7 @@ type Stall struct {
 
 // BitOp is one operation of a BitList history.
 type BitOp struct {
-	Op string `json:"op"`          // new zero addbit addbits addbyte set get len bytes iter itern
+	Op string `json:"op"`          // new zero addbit addbits addbyte set get len bytes iter itern switch
 	A  int    `json:"a,omitempty"` // new: n; addbits: value; addbyte: byte; set/get: index
 	N  int    `json:"n,omitempty"` // addbits: count; addbit: number of bits taken from Bits
 	V  bool   `json:"v,omitempty"` // set: value
